@@ -163,6 +163,7 @@ type Exec struct {
 	pools     map[*Value][]Value
 	gos       []func()
 	parked    []func()
+	gosDyn    []bool // parallel to gos: started by a goroutine during a drain
 	nowCount  int
 	lastNow   *term.T
 	funcsSeen map[*ssa.Function]bool
